@@ -513,6 +513,17 @@ func (fx *Fx) applyContract(st *State, ct *Contract, fn *ssa.Function, args []Va
 		fx.bindResults(vars, res, resT, fn, ct)
 	}
 	post := &Env{fx: fx, st: st, old: old, vars: vars}
+	freshLocals := map[string]*Term{}
+	post.callFresh = func(key string) *Term {
+		if l, ok := freshLocals[key]; ok {
+			return l
+		}
+		lo := fx.newLocal(st, false, "fresh:"+shortCallee(name))
+		st.Escaped[lo.ID] = true
+		l := LocalObj(lo.ID)
+		freshLocals[key] = l
+		return l
+	}
 	for _, ff := range ct.FreshFields {
 		// (fresh-field <pointer> <field>): the field holds a reference to an object allocated by the callee
 		pv := fx.P.elab(fx, ff.List[1], post)
